@@ -261,6 +261,12 @@ pub async fn create_archive<R: AsyncRead + Unpin + Send, W: AsyncWrite + Unpin>(
         .await
         .map_err(CreateArchiveError::OutputWriteError)?;
 
+    // A failed background write of the last chunk is only reported by a flush.
+    temp_file
+        .flush()
+        .await
+        .map_err(CreateArchiveError::TempFileError)?;
+
     temp_file
         .rewind()
         .await
